@@ -48,6 +48,12 @@ void mon_input(uint8_t b)
                 return;
         }
         if (M->line_len >= W.line_max) mcx_fatal("line longer than line_max=%d", W.line_max);
+        {
+                /* the two prefix characters are case-insensitive for parser and reference alike: store them folded so states merge */
+                int nb = 0;
+                for (int i = 0; i < M->line_len && nb < 2; i++) if (I.line[i] != '\r') nb++;
+                if (nb < 2 && b >= 'a' && b <= 'z') b = (uint8_t)(b - 32);
+        }
         I.line[M->line_len++] = b;
         if (b != '\r') M->line_nonblank = 1;
         if (W.merge_doomed) {
